@@ -141,6 +141,6 @@ def replay(j):
             if bad:
                 break
         print("now:", bad or "inspected and uninspected runs agree")
-        return bad is not None
+        return bad is None
     r = run("quick", j["seed"])
-    return any(v["key"] == j["key"] for v in r["violations"])
+    return not any(v["key"] == j["key"] for v in r["violations"])          # True = the contract holds now
